@@ -56,6 +56,7 @@ ghost K.sync_stage int               # 0 none, 1 ready word written, 2 ack read 
 ghost K.sync_wfile int
 ghost K.sync_rfile int
 ghost K.idmap_read bool
+ghost K.idmap_status uintptr     # the status word the parent sent after writing the id maps (first word read before the sync)
 ghost K.unshare_cgroup_issued bool
 ghost K.last_trap uintptr            # the last system call issued and its errno
 ghost K.last_errno uintptr
@@ -72,7 +73,9 @@ ALL_GHOST = [l.split()[1] for l in GHOST.strip().split("\n") if l.startswith("gh
 CASES = [
  (3, "close", ["K.fdt"], [
    "K.fdt == old(K.fdt)[int(a1) := 0]"]),                       # Linux releases the slot whatever close returns
- (0, "read", ["K.sync_stage", "K.sync_rfile", "K.idmap_read"], [
+ (0, "read", ["K.sync_stage", "K.sync_rfile", "K.idmap_read", "K.idmap_status", "deref_as(ptr(a2), syscall.Errno)"], [
+   "err == 0 && r1 == 8 && a3 == 8 && old(K.sync_stage) == 0 && !old(K.idmap_read) ==> K.idmap_status == uintptr(deref_as(ptr(a2), syscall.Errno))",
+   "!(err == 0 && r1 == 8 && a3 == 8 && old(K.sync_stage) == 0 && !old(K.idmap_read)) ==> K.idmap_status == old(K.idmap_status)",
    "err == 0 && r1 != 0 && old(K.sync_stage) == 1 ==> K.sync_stage == 2 && K.sync_rfile == K.fdt[int(a1)]",
    "!(err == 0 && r1 != 0 && old(K.sync_stage) == 1) ==> K.sync_stage == old(K.sync_stage) && K.sync_rfile == old(K.sync_rfile)",
    "K.idmap_read == (old(K.idmap_read) || (err == 0 && old(K.sync_stage) == 0))",
